@@ -11,6 +11,7 @@ import (
 	"time"
 
 	"github.com/ipfs/go-datastore"
+	contextds "github.com/ipfs/go-datastore/context"
 
 	"github.com/celestiaorg/go-header"
 )
@@ -66,17 +67,40 @@ func (s *Store[H]) deleteSingle(
 		}
 	}
 
-	if err := s.ds.Delete(ctx, hashKey(hash)); err != nil {
-		return fmt.Errorf("delete hash key (%X): %w", hash, err)
-	}
-	if err := s.ds.Delete(ctx, heightKey(height)); err != nil {
-		return fmt.Errorf("delete height key (%d): %w", height, err)
+	if err := s.deleteKeys(ctx, hashKey(hash), heightKey(height)); err != nil {
+		return fmt.Errorf("delete hash (%X) and height (%d) keys: %w", hash, height, err)
 	}
 
 	s.cache.Remove(hash.String())
 	s.heightIndex.cache.Remove(height)
 	s.pending.DeleteRange(height, height+1)
 	return nil
+}
+
+// deleteKeys removes the given keys atomically, so that a failed write cannot leave
+// a height index entry pointing to a header that is already gone.
+// The deletes are collected in the write batch attached to the context, if any, or in a dedicated one.
+func (s *Store[H]) deleteKeys(ctx context.Context, keys ...datastore.Key) error {
+	if batch, ok := contextds.GetWrite(ctx); ok {
+		// the batch belongs to the underlying datastore, so address it with converted keys
+		for _, key := range keys {
+			if err := batch.Delete(ctx, s.ds.ConvertKey(key)); err != nil {
+				return err
+			}
+		}
+		return nil
+	}
+
+	batch, err := s.ds.Batch(ctx)
+	if err != nil {
+		return err
+	}
+	for _, key := range keys {
+		if err := batch.Delete(ctx, key); err != nil {
+			return err
+		}
+	}
+	return batch.Commit(ctx)
 }
 
 // deleteSequential deletes [from:to) header range from the store sequentially
